@@ -10,7 +10,7 @@ import (
 	"github.com/buildbuildio/pebbles/gqlerrors"
 	"github.com/buildbuildio/pebbles/planner"
 	"github.com/buildbuildio/pebbles/requests"
-	"github.com/gobwas/ws/wsutil"
+	"github.com/gobwas/ws"
 )
 
 type subscriptionEntry struct {
@@ -163,7 +163,7 @@ func (se *subscriptionEntry) Listen(conn net.Conn) {
 			if err != nil {
 				return
 			}
-			if err := wsutil.WriteServerText(conn, bResp); err != nil {
+			if err := writeFrame(conn, ws.NewTextFrame(bResp)); err != nil {
 				return
 			}
 		case <-se.closeCh:
